@@ -26,7 +26,7 @@ type route struct {
 	// (classReps) instead of all 23; thorough applies all.
 	// late: ext route that is the SECOND link of a chain only in the thorough tier.
 	ext, late bool
-	origin  func(u int) (setup, lv string)
+	origin    func(u int) (setup, lv string)
 	// originBuild: the original lives where only the route's own code can build it (a static local);
 	// lv is then a read-only expression (a call), snapshotted but never mutated
 	originBuild func(u int, build func(lv string) string) (setup, lv string)
